@@ -94,3 +94,24 @@ PROPS["C02"] = dict(
     floors={"quick": {"boundary_high_vote_weight_exactly_subquorum": 1000, "boundary_high_vote_weight_one_below_subquorum": 1000, "boundary_two_subquorums": 20, "family_A-locked-block": 10000, "family_B-some-saw-certificate": 10000, "family_A-faulty-reports-certificate": 1000, "exhaustive_QBS_enumerations": 1},
             "thorough": {"boundary_two_subquorums": 100, "exhaustive_QBS_enumerations": 1}},
 )
+
+PROPS["C09"] = dict(
+    title="Wire encoding is lossless and canonical",
+    level="exploration",
+    technique="runtime oracle: round-trip + independent canonical encoder + independent re-serialiser (field order, packing, over-long varints) over edge-biased generated values of every wire/storage type",
+    explanation="For every public wire/storage type (std conversions, all validator/node messages, certificates, blocks, genesis, schedule, "
+    "replica state, signed envelopes) edge-biased generators (0/1/MAX integers, empty-but-present bytes, bit vectors of every length 0-70, "
+    "0/1/many map entries, negative/extreme durations and timestamps, IPv4/IPv6) produce values x; the check demands encode(x)==canonical(x), "
+    "decode(encode(x))==x, encode(x)== the canonical form computed by an independent encoder (written from the spec comment, not from proto_fmt.rs), "
+    "and for 5 alternative valid serialisations a(x) produced by an independent re-serialiser: decode(a(x))==x and canonical_raw(a(x))==encode(x). "
+    "No production message has repeated scalars, so packed/unpacked normalisation is exercised on a synthetic descriptor with repeated fields of every wire type. "
+    "Equal values built in different ways (schedule listing order, vote insertion order, bit vectors by push vs bytes with garbage padding) must give equal bytes, hashes and verifiable signatures. "
+    "The crate-private network messages (handshakes, RPC requests) are covered by the network stage through the verif facade.",
+    assumptions=[
+        "prost / prost-reflect descriptors are trusted for the message structure; PartialEq of the value types is trusted as value equality",
+        "held on the generated values only",
+    ],
+    stages=[dict(name="public-types", flavour="release", **E2)],
+    floors={"quick": {"alternative_serialisations_differing_from_canonical": 50000, "packed_unpacked_variants": 5000, "construction_order_cases": 1000, "values_TimeoutQC": 1000, "values_Duration": 1000},
+            "thorough": {"packed_unpacked_variants": 50000}},
+)
